@@ -256,11 +256,15 @@ Section EndToEnd.
     if x_eof s then rest = [] /\ x_loc s = pos_after (input ++ [10])
     else (x_loc s, x_nl s) = pos_state consumed.
 
-  Lemma lex_reach input : forall fuel consumed rest s,
+  Lemma advance_fst_any ln c c' : fst (advance_loc ln c) = fst (advance_loc ln c').
+  Proof. reflexivity. Qed.
+
+  Lemma lex_reach input fault : forall fuel consumed rest s,
     input = consumed ++ rest ->
     LocInv input consumed rest s ->
+    (fault = true -> x_eof s = false) ->
     Reach input (x_tok s) ->
-    forall it, In it (lex fuel s rest) -> Reach input (item_loc it).
+    forall it, In it (lex fault fuel s rest) -> Reach input (item_loc it).
   Proof.
     assert (Hloc : forall consumed rest s, input = consumed ++ rest ->
                LocInv input consumed rest s -> Reach input (x_loc s)).
@@ -272,17 +276,19 @@ Section EndToEnd.
         unfold pos_after. rewrite <- H. reflexivity. }
     (* one step from a state u whose position is already accounted for *)
     assert (Hstep : forall f consumed rest u c,
-               (forall consumed rest s, input = consumed ++ rest -> LocInv input consumed rest s -> Reach input (x_tok s) ->
-                                        forall it, In it (lex f s rest) -> Reach input (item_loc it)) ->
-               input = consumed ++ rest -> LocInv input consumed rest u -> Reach input (x_tok u) ->
+               (forall consumed rest s, input = consumed ++ rest -> LocInv input consumed rest s ->
+                                        (fault = true -> x_eof s = false) -> Reach input (x_tok s) ->
+                                        forall it, In it (lex fault f s rest) -> Reach input (item_loc it)) ->
+               input = consumed ++ rest -> LocInv input consumed rest u -> (fault = true -> x_eof u = false) ->
+               Reach input (x_tok u) ->
                forall it,
                  In it (let (s1, out) := step u c in
                         match out with
                         | Some (IErr e l) => [IErr e l]
-                        | Some i => i :: lex f s1 rest
-                        | None => lex f s1 rest
+                        | Some i => i :: lex fault f s1 rest
+                        | None => lex fault f s1 rest
                         end) -> Reach input (item_loc it)).
-    { intros f consumed rest u c IH E HL HT it Hin.
+    { intros f consumed rest u c IH E HL HF HT it Hin.
       pose proof (step_item_loc u c) as Hit. pose proof (step_tok u c) as Htk.
       pose proof (step_keeps_loc dirs ops regs flags u_alnum u_ws u c) as Hkl.
       pose proof (step_keeps_nl dirs ops regs flags u_alnum u_ws u c) as Hkn.
@@ -291,23 +297,32 @@ Section EndToEnd.
       assert (R1 : Reach input (x_tok s1)).
       { destruct Htk as [H|H]; rewrite H; [exact HT | eapply Hloc; eauto]. }
       assert (L1 : LocInv input consumed rest s1) by (unfold LocInv in *; rewrite Hke, Hkl, Hkn; exact HL).
+      assert (F1 : fault = true -> x_eof s1 = false) by (rewrite Hke; exact HF).
       assert (RI : forall i, out = Some i -> Reach input (item_loc i)).
       { intros i ->. destruct (Hit i eq_refl) as [H|H]; rewrite H; [exact HT | eapply Hloc; eauto]. }
       destruct out as [[t l|e l]|].
       - destruct Hin as [<-|Hin]; [apply RI; reflexivity | eapply IH; eauto].
       - destruct Hin as [<-|[]]. apply RI; reflexivity.
       - eapply IH; eauto. }
-    induction fuel as [|f IH]; intros consumed rest s E HL HT it Hin; cbn [Lexer.lex] in Hin; [contradiction|].
+    induction fuel as [|f IH]; intros consumed rest s E HL HF HT it Hin; cbn [Lexer.lex] in Hin; [contradiction|].
     destruct (x_stash s) as [c|] eqn:Est.
     - (* a pushed-back character: the position does not move *)
       eapply (Hstep f consumed rest (unstash s) c); eauto.
     - destruct rest as [|c rest].
-      + destruct (x_eof s) eqn:Eeof; [contradiction|].
-        match type of Hin with context [step ?s0 10] => eapply (Hstep f consumed [] s0 10); [exact IH|exact E| |exact HT|exact Hin] end.
-        unfold LocInv in *. rewrite Eeof in HL. cbn [x_eof x_loc]. split; [reflexivity|].
-        rewrite HL. rewrite app_nil_r in E. subst consumed.
-        unfold pos_after, pos_state. rewrite fold_left_app. reflexivity.
-      + match type of Hin with context [step ?s0 c] => eapply (Hstep f (consumed ++ [c]) rest s0 c); [exact IH| | |exact HT|exact Hin] end.
+      + destruct fault eqn:Ef.
+        * (* the source failed: the error is at the position the next character would have had *)
+          destruct Hin as [<-|[]]. cbn [item_loc].
+          unfold LocInv in HL. rewrite (HF eq_refl) in HL.
+          exists (S (length input)). split; [lia|].
+          rewrite firstn_all2 by (rewrite app_length; cbn; lia).
+          rewrite HL. rewrite app_nil_r in E. subst consumed.
+          unfold pos_after, pos_state. rewrite fold_left_app. reflexivity.
+        * destruct (x_eof s) eqn:Eeof; [contradiction|].
+          match type of Hin with context [step ?s0 10] => eapply (Hstep f consumed [] s0 10); [exact IH|exact E| |discriminate|exact HT|exact Hin] end.
+          unfold LocInv in *. rewrite Eeof in HL. cbn [x_eof x_loc]. split; [reflexivity|].
+          rewrite HL. rewrite app_nil_r in E. subst consumed.
+          unfold pos_after, pos_state. rewrite fold_left_app. reflexivity.
+      + match type of Hin with context [step ?s0 c] => eapply (Hstep f (consumed ++ [c]) rest s0 c); [exact IH| | |exact HF|exact HT|exact Hin] end.
         * rewrite <- app_assoc. exact E.
         * unfold LocInv in *. unfold with_loc. cbn [x_eof x_loc x_nl]. destruct (x_eof s); [destruct HL; discriminate|].
           rewrite HL. unfold pos_state. rewrite fold_left_app. cbn [fold_left].
@@ -320,8 +335,85 @@ Section EndToEnd.
   Theorem lex_locations input it :
     In it (lex_all dirs ops regs flags u_alnum u_ws input) -> Reach input (item_loc it).
   Proof.
-    unfold lex_all. apply (lex_reach input _ [] input); [reflexivity|reflexivity|].
+    unfold lex_all. apply (lex_reach input false _ [] input); [reflexivity|reflexivity|discriminate|].
     exists 0%nat. split; [lia|reflexivity].
+  Qed.
+
+  (* ... also when the character source fails after [input] (a byte that is not UTF-8, an I/O error) *)
+  Theorem lex_fault_locations input it :
+    In it (lex_fault dirs ops regs flags u_alnum u_ws input) -> Reach input (item_loc it).
+  Proof.
+    unfold lex_fault. apply (lex_reach input true _ [] input); [reflexivity|reflexivity|reflexivity|].
+    exists 0%nat. split; [lia|reflexivity].
+  Qed.
+
+  (* the state machine itself never reports a read error *)
+  Lemma step_never_read s c e l : snd (step s c) = Some (IErr e l) -> e <> ERead.
+  Proof.
+    unfold Lexer.step, number_done, ident_token.
+    destruct (x_state s);
+      repeat match goal with
+             | |- context [if ?b then _ else _] => destruct b
+             | |- context [match escape_char ?c with _ => _ end] => destruct (escape_char c)
+             | |- context [match x_buf s with _ => _ end] => destruct (x_buf s)
+             | |- context [match sym_parse ?b with _ => _ end] => destruct (sym_parse b) as [[]|]
+             | |- context [match tab_lookup ?t ?n with _ => _ end] => destruct (tab_lookup t n)
+             | |- context [match directive_of_id ?i with _ => _ end] => destruct (directive_of_id i)
+             | |- context [match parse_u32 ?b ?l with _ => _ end] => destruct (parse_u32 b l)
+             | |- context [match count_dots ?b with _ => _ end] => destruct (count_dots b) as [|[|?]]
+             end;
+      cbn; intro H; inversion H; discriminate.
+  Qed.
+
+  (* C17 / C14: when the source fails after the characters [input], the read error -- if lexing gets that far --
+     is reported exactly at the position of the character that could not be read *)
+  Lemma lex_fault_exact input l : forall fuel consumed rest s,
+    input = consumed ++ rest ->
+    x_eof s = false -> (x_loc s, x_nl s) = pos_state consumed ->
+    In (IErr ERead l) (lex true fuel s rest) -> l = pos_after (input ++ [0]).
+  Proof.
+    assert (Hstep : forall f consumed rest u c,
+               (forall consumed rest s, input = consumed ++ rest -> x_eof s = false -> (x_loc s, x_nl s) = pos_state consumed ->
+                                        In (IErr ERead l) (lex true f s rest) -> l = pos_after (input ++ [0])) ->
+               input = consumed ++ rest -> x_eof u = false -> (x_loc u, x_nl u) = pos_state consumed ->
+               In (IErr ERead l) (let (s1, out) := step u c in
+                                   match out with
+                                   | Some (IErr e l) => [IErr e l]
+                                   | Some i => i :: lex true f s1 rest
+                                   | None => lex true f s1 rest
+                                   end) -> l = pos_after (input ++ [0])).
+    { intros f consumed rest u c IH E He HL Hin.
+      pose proof (step_never_read u c) as Hnr.
+      pose proof (step_keeps_loc dirs ops regs flags u_alnum u_ws u c) as Hkl.
+      pose proof (step_keeps_nl dirs ops regs flags u_alnum u_ws u c) as Hkn.
+      pose proof (step_keeps_eof u c) as Hke.
+      destruct (step u c) as [s1 out] eqn:Es. cbn [fst snd] in *.
+      assert (L1 : (x_loc s1, x_nl s1) = pos_state consumed) by (rewrite Hkl, Hkn; exact HL).
+      assert (E1 : x_eof s1 = false) by (rewrite Hke; exact He).
+      destruct out as [[t l'|e l']|].
+      - destruct Hin as [Hd|Hin]; [discriminate | eapply IH; eauto].
+      - destruct Hin as [Hd|[]]. inversion Hd; subst. exfalso. eapply Hnr; reflexivity.
+      - eapply IH; eauto. }
+    induction fuel as [|f IH]; intros consumed rest s E He HL Hin; cbn [Lexer.lex] in Hin; [contradiction|].
+    destruct (x_stash s) as [c|] eqn:Est.
+    - eapply (Hstep f consumed rest (unstash s) c); eauto.
+    - destruct rest as [|c rest].
+      + assert (Hd : l = fst (advance_loc (x_loc s, x_nl s) 0)) by (destruct Hin as [Hd|[]]; congruence).
+        rewrite Hd, HL. rewrite app_nil_r in E. subst consumed.
+        unfold pos_after, pos_state. rewrite fold_left_app. reflexivity.
+      + match type of Hin with context [step ?s0 c] => eapply (Hstep f (consumed ++ [c]) rest s0 c); [exact IH| | | |exact Hin] end.
+        * rewrite <- app_assoc. exact E.
+        * exact He.
+        * unfold with_loc. cbn [x_loc x_nl]. rewrite HL. unfold pos_state. rewrite fold_left_app. cbn [fold_left].
+          destruct (advance_loc _ c); reflexivity.
+  Qed.
+
+  Theorem read_fault_located input l :
+    In (IErr ERead l) (lex_fault dirs ops regs flags u_alnum u_ws input) ->
+    l = {| line := 1 + count_nl input; col := since_nl input 0 + 1 |}.
+  Proof.
+    intro H. rewrite <- (pos_after_spec input 0).
+    unfold lex_fault in H. apply (lex_fault_exact input l (3 * length input + 8) [] input st0); [reflexivity|reflexivity|reflexivity|exact H].
   Qed.
 End EndToEnd.
 
